@@ -1594,7 +1594,7 @@ int 56; byte "self"; int 1; byte 0x77; app_box_replace; int 56; byte "self"; byt
 int 56; byte "self"; int 1; int 2; byte 0x5566; app_box_splice; int 56; byte "self"; int 12; app_box_resize; int 56; byte "fresh"; int 8; app_box_create; pop
 int 56; byte "fresh"; app_box_del; pop; int 1`},
 	{10, true, `byte "self"; int 24; box_create; pop; byte "self"; int 2; int 3; byte 0x11223344; box_splice; byte "self"; int 20; box_resize; byte "other"; byte "01234567890123456789012345678901234567890123456789"; box_put; int 1`},
-	{5, true, `int 0; int 55; asset_holding_get AssetBalance; pop; pop; int 0; int 888; app_opted_in; pop; int 0; byte "lu"; app_local_get; pop; txn Sender; acct_params_get AcctBalance; pop; pop; int 1`},
+	{6, true, `int 0; int 55; asset_holding_get AssetBalance; pop; pop; int 0; int 888; app_opted_in; pop; int 0; byte "lu"; app_local_get; pop; txn Sender; acct_params_get AcctBalance; pop; pop; int 1`},
 	{5, false, `byte 0x02a1b1c1d1e1f101112131415161718191a1b1c1d1e1f101112131415161718191; ecdsa_pk_decompress Secp256k1; pop; pop; int 1`},
 	{13, false, `byte 0x0000000000000000000000000000000000000000000000000000000000000001; dup; concat; poseidon2 BN254t2; len; int 32; ==
 byte 0x0000000000000000000000000000000000000000000000000000000000000001; ec_map_to BN254g1; byte 0x0000000000000000000000000000000000000000000000000000000000000002; ec_multi_scalar_mul BN254g1; len; int 64; ==; &&`},
